@@ -3,9 +3,9 @@ ID = "C02"
 VARIANTS = ["san", "simd"]
 RULE = ("llenc: images (noise, flat, alternating 0/max, gradient, random extremes; width/height from 1) x precision 2..16 x "
         "PSV 1..7 x Pt x 1..4 components (RGB-style single table and YCbCr-style two tables) x restart rows; the Lean model must "
-        "emit byte-identical DHT tables and entropy-coded data, and the real decoder (libjpeg and TurboJPEG) must return "
-        "(s >> Pt) << Pt; lltj: TurboJPEG API with every packed-pixel layout, row order and pitch; class = op + precision band + outcome")
-TRUSTED = ["Model.Lossless / Model.Bits / Model.Huff are hand models of jclossls.c, jdlossls.c, jcdiffct.c, jddiffct.c, jclhuff.c, jdlhuff.c"]
+        "emit byte-identical DHT tables and entropy-coded data, the model's decoder llDecode run on those bytes must return the samples "
+        "the real decompressor returns, and the real decoder (libjpeg and TurboJPEG) must return (s >> Pt) << Pt; lltj: TurboJPEG API with every packed-pixel layout, row order and pitch; class = op + precision band + outcome")
+TRUSTED = ["Model.Lossless / Model.LosslessDec / Model.Bits / Model.Huff are hand models of jclossls.c, jdlossls.c, jcdiffct.c, jddiffct.c, jclhuff.c, jdlhuff.c"]
 ASSUMPTIONS = ["all sampling factors are 1 in lossless mode (forced by jcmaster.c); the byte-level model covers the single interleaved scan (default for <= 4 components); "
                "other scan layouts (one scan per component, partial interleaving) are exercised on the real code by llscan with the exact-reconstruction oracle"]
 
@@ -80,9 +80,10 @@ MANIFEST = {
     "text": ("Kernel-checked Lean theorems over a model of the lossless codec (point transform, seven predictors with first-row/"
              "first-column rules, mod-2^16 reconstruction, restart-row bookkeeping of compressor and decompressor, difference "
              "category coding incl. the 32768 case, Huffman coding via the C19 theorems, bit packing with byte stuffing and padding); "
-             "see Props/C02.lean for the list and for what is still *_partial. The model is tied to the real compressor by "
-             "byte-identical DHT segments and entropy-coded data for every generated image, and the real decoder is checked "
-             "against (s >> Pt) << Pt through both APIs, every pixel layout, row order and pitch."),
+             "the main theorem lossless_roundtrip covers the whole interleaved scan from samples to bytes and back (restart intervals, "
+             "MCU interleaving and regrouping included) for every image and parameter set. The model is tied to the real compressor by "
+             "byte-identical DHT segments and entropy-coded data for every generated image and to the real decompressor by identical "
+             "decoded samples for the same bytes, and the real decoder is checked against (s >> Pt) << Pt through both APIs, every pixel layout, row order and pitch."),
     "design_ref": "DESIGN.md 6.2",
     "note": ("Trusted: Lean kernel; axioms propext, Quot.sound, Classical.choice; the hand model (tied by byte-exact correspondence); "
              "layout/pitch/row-order independence rests on C10 + the lltj oracle; multi-scan lossless (more than 4 components or "
